@@ -5,6 +5,7 @@
   lemmas: TmVerif/Sched/{Reach, InvCap, InvCapPrim, InvCapOps}.lean.
   The unit-spelling clause (1G = 1024M, 100% = 100) is in TmVerif/Props/C01Units.lean.
 -/
+import TmVerif.Sched.InvCapOps
 import TmVerif.Sched.Cons
 
 namespace TmVerif.Sched
